@@ -210,3 +210,63 @@ func Harness_C06_callback() {
 	vassert(s.sem.TryAcquire(int64(limit)), "C06: every slot is released when the handlers are done")
 	reach("done")
 }
+
+// verifNamerMux is an assigner whose Names method (the observable work of the
+// rpc.serverInfo built-in) records how many user handlers were executing.
+type verifNamerMux struct {
+	verifMap
+	log        *verifLog
+	calls      int
+	maxRunning int
+}
+
+func (m *verifNamerMux) Names() []string {
+	m.calls++
+	if m.log.running > m.maxRunning {
+		m.maxRunning = m.log.running
+	}
+	return []string{"c0"}
+}
+
+// Harness_C06_builtin: the built-in rpc.serverInfo counts against the limit
+// like any handler: with every slot taken by user handlers its work (walking
+// the assigner's names) does not happen until a slot is free.
+func Harness_C06_builtin() {
+	verifMapOrders(false)
+	limit := 1 + nondetChoice("limit", 2)
+	log := &verifLog{gates: map[string]chan struct{}{}}
+	mux := &verifNamerMux{verifMap: verifMap{}, log: log}
+	var batch jmessages
+	for i := 0; i < limit; i++ {
+		name := "c" + verifItoa(i)
+		log.gates[name] = make(chan struct{})
+		mux.verifMap[name] = log.handler(name, name, nil)
+		batch = append(batch, &jmessage{ID: json.RawMessage(verifItoa(i + 1)), M: name, batch: true})
+	}
+	s := NewServer(mux, &ServerOptions{Concurrency: limit})
+	rec := &verifRecorder{}
+	s.ch = rec
+	s.mu.Lock()
+	run := s.dispatchLocked(batch, rec)
+	s.mu.Unlock()
+	done1, done2 := false, false
+	go func() { run(); done1 = true }()
+	quiesce()
+	vassert(log.running == limit, "every slot is taken by a user handler")
+	// now the built-in arrives
+	s.mu.Lock()
+	run2 := s.dispatchLocked(jmessages{&jmessage{ID: json.RawMessage("9"), M: "rpc.serverInfo"}}, rec)
+	s.mu.Unlock()
+	go func() { run2(); done2 = true }()
+	quiesce()
+	vassert(mux.calls == 0 && !done2, "C06: with all slots in use the built-in method does not execute (built-in methods count against the limit)")
+	for i := 0; i < limit; i++ {
+		close(log.gates["c"+verifItoa(i)])
+	}
+	quiesce()
+	vassert(done1 && done2 && mux.calls == 1, "the built-in runs once a slot is free")
+	vassert(mux.maxRunning < limit, "C06: the built-in held a slot of its own while it worked")
+	vassert(len(rec.sent) == 2, "both messages are answered")
+	vassert(s.sem.TryAcquire(int64(limit)), "C06: every slot is released")
+	reach("builtin-done")
+}
